@@ -118,6 +118,7 @@ type vxEnv struct {
 	lock      *locksutil.LockEntry
 	commits   int
 	txOpen    int
+	reading   bool
 }
 
 var vxE *vxEnv
@@ -128,7 +129,14 @@ type vxStore struct {
 }
 
 func (m *vxStore) step(op string) error {
-	vxAssert("storage is only touched while the key's lock is held", vxHeldW(vxE.lock))
+	if vxE.reading {
+		// a read holds the key's lock shared; its (read-only) transaction may be opened before the lock is taken
+		if op != "begin" {
+			vxAssert("a read touches storage only while the key's lock is held", vxHeld(vxE.lock) >= 1)
+		}
+	} else {
+		vxAssert("storage is only touched while the key's lock is held", vxHeldW(vxE.lock))
+	}
 	vxE.calls++
 	if vxE.failAt >= 0 && vxE.calls-1 == vxE.failAt {
 		return vxErr("injected storage failure")
